@@ -20,3 +20,19 @@ package cosmos
 //@   invariant[C13.isd.every] -1 <= rangeindex && rangeindex < len(res_GetMsgs_0) && traceN() == old(traceN()) + rangeindex + 1
 //@ loop #2
 //@   invariant true
+
+// C13: a create-price transaction is handed on only if every one of its signatures verifies under the public key it
+// carries (which SetPubKeyDecorator has tied to the signer address): the signature loop goes on to the next signature
+// only after VerifySignature returned true.
+//@ func (SigVerificationDecorator).AnteHandle#next
+//@   flag assumed
+//@   modifies state(ctx), trace
+
+//@ func (SigVerificationDecorator).AnteHandle
+//@   flag pure=IsOracleCreatePriceTx,OnlyLegacyAminoSigners
+//@   flag noframe
+//@ loop #1
+//@   invariant true
+//@   step[C13.svd.signed] res_VerifySignature_0
+//@ loop #2
+//@   invariant true
